@@ -5,12 +5,13 @@ from pathlib import Path
 V = Path(__file__).resolve().parents[1]
 table = {p.stem: json.loads(p.read_text()) for p in (V / 'tools' / 'manifest').glob('C*.json')}
 table.update(json.loads((V / 'tools' / 'manifest' / '_global.json').read_text()))
+ready = set((V / 'tools' / 'manifest' / 'READY').read_text().split())   # properties whose check the lead has verified on the unchanged tree
 props = [json.loads(l) for l in (V / 'properties.jsonl').read_text().splitlines() if l.strip()]
 checks, na = [], []
 for p in props:
     pid = p['id']
     t = table.get(pid)
-    if t and t.get('claimed'):
+    if t and t.get('claimed') and pid in ready:
         checks.append({
             'property_id': pid,
             'quick_cmd': f'./check {pid} quick',
